@@ -48,6 +48,9 @@ type Job struct {
 	ListOnly bool   // only report the enabled events
 	Only     string // expand only this event
 	Tag      string // selects the model inside a multi-model worker
+	// Deadline (unix nanoseconds, 0 = none): past it, no further alternative of an in-event data choice is started;
+	// the default execution of every enabled event still runs, and the result says that it was capped
+	Deadline int64
 }
 
 // Succ is one successor found.
@@ -95,6 +98,7 @@ type JobResult struct {
 	Panics     int
 	Err        string
 	Trace      []string
+	Capped     bool // the enumeration of in-event data choices was cut by the job's deadline
 }
 
 // Opt is the vsched configuration used for every execution.
@@ -243,6 +247,10 @@ func Expand(m Model, job Job) *JobResult {
 					}
 				}
 				for alt := 1; alt < r.Points[i].N; alt++ {
+					if job.Deadline != 0 && time.Now().UnixNano() > job.Deadline {
+						res.Capped = true
+						return
+					}
 					np := make([]int, i+1)
 					copy(np, r.Choices[:i])
 					np[i] = alt
@@ -508,6 +516,9 @@ func SearchP(pool *Pool, tag string, addViol func(common.Violation), addSample f
 							}
 						}
 						jb.Tag = tag
+						if !deadline.IsZero() {
+							jb.Deadline = deadline.UnixNano()
+						}
 						w.n++
 						b, _ := json.Marshal(jb)
 						w.stdin.Write(b)
@@ -567,6 +578,11 @@ func SearchP(pool *Pool, tag string, addViol func(common.Violation), addSample f
 		})
 		var next []node
 		runJobs(evJobs, func(r *JobResult) {
+			if r.Capped {
+				stopMu.Lock()
+				stopped = true
+				stopMu.Unlock()
+			}
 			st.Executions += r.Executions
 			st.Events += r.Events
 			st.Blocked += r.Blocked
